@@ -61,9 +61,13 @@ unsigned inPlaceGraham(std::vector<Point>& Pv) {
 PyObject*
 convexhull(PyObject* self, PyObject* args) {
 	PyArrayObject* array;
-	if (!PyArg_ParseTuple(args,"O", &array) ||
-           !PyArray_ISCARRAY(array) ||
-           !PyArray_EquivTypenums(PyArray_TYPE(array), NPY_BOOL)) return 0;
+	if (!PyArg_ParseTuple(args,"O", &array)) return 0;
+	if (!PyArray_Check(array) ||
+           !PyArray_ISCARRAY_RO(array) ||
+           !PyArray_EquivTypenums(PyArray_TYPE(array), NPY_BOOL)) {
+		PyErr_SetString(PyExc_RuntimeError, "mahotas._convex.convexhull: expected a C-contiguous boolean array");
+		return 0;
+	}
 
     holdref r(array);
 	unsigned h;
